@@ -189,6 +189,9 @@ func runC02(tier string, seed uint64) {
 					c02RandomOp(s, u, rng)
 				}
 				c02Probe(s, u)
+				if i%3 == 0 {
+					c02Nesting(s, u.buckets[0])
+				}
 				s.end()
 				nontrivial(fmt.Sprint("rnd", kind, auto, i))
 			}
@@ -196,4 +199,40 @@ func runC02(tier string, seed uint64) {
 	}
 	sample("exhaustive: all sequences of length 3 over 18 symbols (mkb/rmb/put/get/head/del/mdel/copy incl. self-copy/hdb) on mem, then probe (lsb, list, get every key)")
 	sample("random: 40 ops per sequence over 2 buckets x 4 keys x 3 bodies x 7 metadata sets; weights put 23 get 15 del 12 copy 12 mdel 6 mkb 8 rmb 5 list 8 ...")
+}
+
+// c02Nesting (last step of a history; not through the model: whether a backend can hold a key and a
+// key below it at the same time is the backend's business): an upload below an existing object, and
+// an upload onto a name that holds other keys, may be refused or stored, but the acknowledged
+// object that was there first keeps reading as written, and what was acknowledged is readable
+func c02Nesting(s *Sess, b string) {
+	if s.st.Ext != nil {
+		return
+	}
+	if r := do(s.h, Req{Method: "HEAD", Path: "/" + b}); r.Status != 200 {
+		return
+	}
+	get := func(k string) (int, string) {
+		g := do(s.h, Req{Method: "GET", Path: "/" + b + "/" + k})
+		return g.Status, string(g.Body)
+	}
+	for _, sc := range [][2]string{{"nest", "nest/x"}, {"nest2", "nest2/y/z"}, {"top/leaf", "top"}, {"p/q/r", "p/q"}} {
+		first, second := sc[0], sc[1]
+		r1 := do(s.h, Req{Method: "PUT", Path: "/" + b + "/" + first, Body: []byte("first:" + first)})
+		if r1.Status != 200 {
+			continue
+		}
+		r2 := do(s.h, Req{Method: "PUT", Path: "/" + b + "/" + second, Body: []byte("second:" + second)})
+		s1, b1 := get(first)
+		s2, b2 := get(second)
+		ok := s1 == 200 && b1 == "first:"+first && ((r2.Status >= 400 && s2 == 404) || (r2.Status == 200 && s2 == 200 && b2 == "second:"+second))
+		msg := fmt.Sprintf("%s: PUT %q (200) then PUT %q (%d): GET %q answers %d %q, GET %q answers %d %q", s.kind, first, second, r2.Status, first, s1, b1, second, s2, b2)
+		if ok {
+			emit("c02", "GOOD", hs(msg))
+		} else {
+			emit("c02", "BAD", hs("S:acknowledged-write-lost-to-a-nested-key "+msg))
+		}
+		do(s.h, Req{Method: "DELETE", Path: "/" + b + "/" + second})
+		do(s.h, Req{Method: "DELETE", Path: "/" + b + "/" + first})
+	}
 }
